@@ -12,6 +12,8 @@ for n in range(16):
     TARGETS["queues.R%d" % n] = dict(src="scenarios/queues.cpp", defs=["-DXV_RECL=%d" % n])
 TARGETS["queues.norecl"] = dict(src="scenarios/queues.cpp", defs=["-DXV_NORECL"])
 for n in range(16):
+    TARGETS["vyukov.R%d" % n] = dict(src="scenarios/vyukov.cpp", defs=["-DXV_RECL=%d" % n])
+for n in range(16):
     TARGETS["harris.R%d" % n] = dict(src="scenarios/harris.cpp", defs=["-DXV_RECL=%d" % n])
 for n in range(16):
     TARGETS["reclaim.R%d" % n] = dict(src="scenarios/reclaim.cpp", defs=["-DXV_RECL=%d" % n])
@@ -55,6 +57,17 @@ def attribute(scenario, config, kind, primary, weak):
             props = [lin, "C07"]
     elif fam in SIMPLE_FAMILIES:
         props = ["C16"] if kind in ("solo-bound", "solo-blocked") else list(SIMPLE_FAMILIES[fam])
+    elif fam == "vyukov":
+        if kind in ("solo-bound", "solo-blocked"):
+            props = ["C16"]
+        elif primary and kind not in GENERIC_KINDS and not race:
+            props = [primary]
+        elif config.startswith("iter_"):
+            props = ["C11", "C10"]
+        elif config.startswith("seq_"):
+            props = ["C10", "C11"]
+        else:
+            props = ["C10"]
     elif fam == "harris":
         if kind in ("solo-bound", "solo-blocked"):
             props = ["C16"]
@@ -252,7 +265,17 @@ def plan_c03():
             eh = 150 if tier == "quick" else 2000
             jobs += generic_jobs(list_configs, "harris", R8, r".", "xrt-prod", "weak", eh, seed + w, window=w, per_job=4)
             jobs += generic_jobs(list_configs, "harris", [1, 3, 5], r".", "xrt-tsan", "weak", eh, seed + w + 1, window=w, per_job=4)
+            # x86-TSO engine (FIFO store buffers): distinguishes seq_cst stores / fences from release ones exactly
+            jobs += queue_jobs(list_configs, R8, r".", "xrt-prod", "tso", eq, seed + w + 3, norecl=True, window=w, per_job=3)
+            jobs += generic_jobs(list_configs, "reclaim", R8 + RPLUS, r"^proto_", "xrt-prod", "tso", er, seed + w + 3, window=w, per_job=2)
+            jobs += generic_jobs(list_configs, "harris", R8, r".", "xrt-prod", "tso", eh, seed + w + 3, window=w, per_job=4)
             es = 1500 if tier == "quick" else 20000
+            for simple in ("deque", "seqlock", "leftright"):
+                cfgs = cfgs_matching(list_configs, simple, "xrt-prod", r".")
+                for k in range(0, len(cfgs), 3):
+                    jobs.append(dict(target=simple, variant="xrt-prod", timeout=3600,
+                                     args=["--cfg", ",".join(cfgs[k:k + 3]), "--mode", "tso", "--seed", str(seed + w + 3),
+                                           "--execs", str(es if simple != "leftright" else es * 2), "--window", str(w)]))
             for simple in ("deque", "seqlock", "leftright"):
                 for variant in ("xrt-prod", "xrt-tsan"):
                     cfgs = cfgs_matching(list_configs, simple, variant, r".")
@@ -274,7 +297,9 @@ def plan_c03():
             msgs.append("only %d distinct non-trivial histories" % distinct)
         return msgs
 
-    rule = ("each evaluation = one generated program of one of the scenarios (queues, reclaim protocol, ...) executed in weak mode: loads may "
+    rule = ("each evaluation = one generated program of one of the scenarios (queues, reclaim protocol, sets/maps, deque, seqlock, left_right) executed "
+            "either on the x86-TSO engine (per-thread FIFO store buffers that drain after at most W steps or at seq_cst stores / RMWs / seq_cst fences) or "
+            "in weak mode: loads may "
             "return any message not excluded by happens-before/coherence and superseded at most W scheduler steps ago, weak CAS fails spuriously, "
             "on the production memory orders (explicit fences) and on the TSan build variant; all scenario oracles run with happens-before precedence "
             "and a vector-clock race detector checks every plain access and every free; distinct_nontrivial as in the scenario's own check")
@@ -371,11 +396,110 @@ PLANS["C09"] = plan_harris(
     "yielded twice without re-insertion, every element definitely present during the whole traversal is yielded; heap shadow for reclaimed nodes; the "
     "updates (incl. the traverser's erase) are checked per key for linearizability as in C08", {"traversals": 1000, "traversal_yields": 1000})
 
+VYU_RECLS = [1, 2, 3, 4, 5, 6, 7]  # vyukov_hash_map does not compile with lock_free_ref_count
+
+
+def plan_vyukov(prop, pattern, execs_quick, execs_thorough, rule, gate_counters):
+    def targets(tier):
+        recls = VYU_RECLS if tier == "quick" else VYU_RECLS + [8, 9, 11, 12]
+        return [("vyukov.R%d" % r, "xrt-prod") for r in recls]
+
+    def jobs(tier, seed, list_configs):
+        recls = VYU_RECLS if tier == "quick" else VYU_RECLS + [8, 9, 11, 12]
+        execs = execs_quick if tier == "quick" else execs_thorough
+        return generic_jobs(list_configs, "vyukov", recls, pattern, "xrt-prod", "sc", execs, seed, per_job=5 if tier == "quick" else 2)
+
+    def gates(tier, agg, counters, per_config, distinct):
+        msgs = []
+        if agg["execs"] == 0:
+            msgs.append("no executions")
+        if distinct < 100:
+            msgs.append("only %d distinct non-trivial histories" % distinct)
+        for c, minimum in gate_counters.items():
+            if counters.get(c, 0) < minimum:
+                msgs.append("counter %s = %d < %d" % (c, counters.get(c, 0), minimum))
+        return msgs
+
+    return dict(targets=targets, jobs=jobs, gates=gates, rule=rule, assumptions=ASSUME_XRT, level="exploration")
+
+
+PLANS["C10"] = plan_vyukov(
+    "C10", r"^(lin|seq)_", 1500, 8000,
+    "each evaluation = 2-4 threads x <= 6 operations (emplace / get_or_emplace_lazy / erase / extract / try_get_value / find / find+erase(iterator)) "
+    "over 2-8 keys that share buckets, on all five key/value storage specialisations, initial capacities 1/2/4 (repeated grows) and 128/256 (extension "
+    "items) with colliding hashes, unique checksummed values per insertion, final iteration; judged per key by a WGL search against a sequential map; "
+    "plus single-threaded random sequences (20-60 operations incl. traversals with erase(iterator)) compared with std::map",
+    {"lockfree_reads_under_overlap": 1000, "sequential_ops": 1000})
+PLANS["C11"] = plan_vyukov(
+    "C11", r"^(iter|seq)_", 1500, 8000,
+    "each evaluation = one traversing thread (begin / ++ / erase(iterator) by position mask / reset) with 1-3 threads doing try_get_value, emplace, "
+    "erase, extract, find on the same buckets; the traverser's erases are part of the per-key linearizability check (exclusive: find+erase(iterator) "
+    "is one atomic step), no key yielded twice, afterwards a managed thread erases/re-inserts/reads every key (a leaked bucket lock is a hang) and "
+    "the final iteration must match the model; plus the single-threaded differential runs of C10", {"traversals": 500, "iterator_erases": 200})
+
+def plan_c16():
+    """Solo runs (freeze strategy) over every scenario: a lock-free operation continued alone must finish in bounded steps."""
+    def targets(tier):
+        t = [("queues.norecl", "xrt-prod"), ("deque", "xrt-prod"), ("seqlock", "xrt-prod"), ("leftright", "xrt-prod")]
+        t += [("queues.R%d" % r, "xrt-prod") for r in R8]
+        t += [("reclaim.R%d" % r, "xrt-prod") for r in R8 + RPLUS]
+        t += [("harris.R%d" % r, "xrt-prod") for r in R8]
+        t += [("vyukov.R%d" % r, "xrt-prod") for r in VYU_RECLS]
+        return t
+
+    def jobs(tier, seed, list_configs):
+        f = ["--freeze"]
+        q = 1 if tier == "quick" else 12
+        jobs = queue_jobs(list_configs, R8, r".", "xrt-prod", "sc", 250 * q, seed, norecl=True, extra=f, per_job=4)
+        jobs += generic_jobs(list_configs, "reclaim", R8 + RPLUS, r"^proto_", "xrt-prod", "sc", 1200 * q, seed, extra=f, per_job=2)
+        jobs += generic_jobs(list_configs, "harris", R8, r".", "xrt-prod", "sc", 250 * q, seed, extra=f, per_job=4)
+        jobs += generic_jobs(list_configs, "vyukov", VYU_RECLS, r"^(lin|iter)_", "xrt-prod", "sc", 100 * q, seed, extra=f, per_job=10)
+        for simple, n in (("deque", 3000), ("seqlock", 2000), ("leftright", 12000)):
+            cfgs = cfgs_matching(list_configs, simple, "xrt-prod", r".")
+            for k in range(0, len(cfgs), 2):
+                jobs.append(dict(target=simple, variant="xrt-prod", timeout=3600,
+                                 args=["--cfg", ",".join(cfgs[k:k + 2]), "--mode", "sc", "--seed", str(seed), "--execs", str(n * q), "--freeze"]))
+        return jobs
+
+    def gates(tier, agg, counters, per_config, distinct):
+        msgs = []
+        if agg["solo_episodes"] < 5000:
+            msgs.append("only %d solo episodes" % agg["solo_episodes"])
+        midop = sum(v for k, v in counters.items() if k.endswith("_others_midop"))
+        if midop < 1000:
+            msgs.append("only %d solo episodes with another thread frozen inside an operation" % midop)
+        return msgs
+
+    rule = ("each evaluation = one execution of one of the scenario programs with the freeze strategy: at a random step the thread that is inside an "
+            "operation documented lock-free (or the next one to enter such an operation) continues ALONE - all other threads stay frozen wherever "
+            "they are (mid CAS loop, holding a bucket lock, inside thread_data destructors) - until the operation returns; its own steps are counted "
+            "against the bound 20000; blocking on a mutex held by a frozen thread is reported as well; distinct_nontrivial as in the scenario's own check")
+    return dict(targets=targets, jobs=jobs, gates=gates, rule=rule, assumptions=ASSUME_XRT + [
+        "reach is the sampled reachable states (one solo episode per execution), not all of them",
+        "operations tagged lock-free: all queue operations except strong vyukov_bounded ones, Harris-Michael operations and traversals, deque operations, "
+        "vyukov_hash_map::try_get_value, seqlock::load with more than one slot, left_right::read, every guard/region operation of the reclaim protocol"],
+        level="exploration")
+
+
+PLANS["C16"] = plan_c16()
+
 # ---------------------------------------------------------------------------------------------------- manifest metadata
 NOT_YET = {}
 _LEVEL_NOTE = ("Trusted base: the xrt runtime (scheduler, vector clocks, heap shadow) and the sequential models in monitors/; gcc 12 -O1 "
                "TSan-instrumented build of the header-only library from /repo's working tree; executions explored = seeded sample, not all schedules.")
 META = {
+    "C16": dict(design_ref="DESIGN.md 5/C16", technique="runtime monitoring: solo-run step counter under the controlled scheduler (all other threads frozen mid-operation), bounded-progress restatement of lock-freedom",
+                level_text="Lock-freedom is restated as bounded solo progress: from sampled reachable intermediate states the victim must finish its operation within 20 000 of "
+                           "its own steps while everybody else is stopped; the observed maximum per operation kind is reported so that the margin is visible.",
+                level_note=_LEVEL_NOTE + " No finite run decides unbounded liveness; the bound is two orders of magnitude above the observed maxima."),
+    "C10": dict(design_ref="DESIGN.md 5/C10", technique="runtime monitoring: recorded histories under a controlled scheduler + per-key WGL linearizability oracle with checksummed per-insertion values + differential monitor vs std::map",
+                level_text="All five storage specialisations, grows from capacity 1 and extension items at 128/256 buckets inside the histories, lock-free readers overlapping "
+                           "erases that move items between slots; torn or foreign values are model violations.",
+                level_note=_LEVEL_NOTE),
+    "C11": dict(design_ref="DESIGN.md 5/C11", technique="runtime monitoring: traversal/erase monitor, per-key WGL oracle with iterator erases as atomic steps, quiescent liveness probe (decidable hang), differential monitor vs std::map",
+                level_text="Iterator traversal with erase(iterator) at arbitrary positions concurrently with lock-free readers and writers waiting for the same buckets; every bucket "
+                           "must be usable afterwards (probe by a managed thread, hang = violation).",
+                level_note=_LEVEL_NOTE),
     "C08": dict(design_ref="DESIGN.md 5/C08", technique="runtime monitoring: recorded histories under a controlled scheduler + per-key WGL linearizability oracle (set / map with per-insertion value ids)",
                 level_text="Conflict-maximising key universes (2-4 keys), colliding and order-reversing hashes, memoize on/off, 8 reclaimers (12 in the thorough tier); "
                            "every per-key sub-history is decided exactly.",
